@@ -4,7 +4,7 @@ Oracle (judge): hashlib.md5 and pure-Python MurmurHash3 (x86_32, x64_128) / FNV-
 from the publications (Appleby's MurmurHash3.cpp; Fowler/Noll/Vo's description), evaluated on the
 implementation's transcript.  The oracle knows nothing of qlibc's code or of the Lean model.
 """
-import hashlib, os, struct
+import hashlib, os, struct, subprocess
 import vlib
 from vlib import Check, Stream, hexs
 
@@ -131,6 +131,59 @@ def lcg_bytes(size, seed):
     return bytes(out)
 
 
+def pattern_block(seed):
+    """the 251-byte block of the harness' `big` op"""
+    return lcg_bytes(251, seed)
+
+
+def md5_pattern(n, seed):
+    """hashlib.md5 of the `big` buffer (block * k + block[:r]) without materialising it"""
+    blk = pattern_block(seed)
+    big = blk * 8192
+    h = hashlib.md5()
+    k, r = divmod(n, len(big))
+    for _ in range(k):
+        h.update(big)
+    k2, r2 = divmod(r, 251)
+    h.update(blk * k2 + blk[:r2])
+    return h.hexdigest()
+
+
+_REF = {}
+
+
+def ref_binary():
+    """checks/hashref.c (MurmurHash3 / FNV-1 from the publications, native speed) compiled with plain
+    gcc -O2; cross-checked against the pure-Python references of this file before use"""
+    if "bin" in _REF:
+        return _REF["bin"]
+    src = os.path.join(os.path.dirname(os.path.abspath(__file__)), "hashref.c")
+    tag = hashlib.sha256(open(src, "rb").read()).hexdigest()[:12]
+    out = os.path.join(vlib.BUILD, "hashref-" + tag)
+    os.makedirs(vlib.BUILD, exist_ok=True)
+    if not os.path.exists(out):
+        r = vlib.sh(["gcc", "-O2", "-o", out + ".tmp%d" % os.getpid(), src])
+        if r.returncode != 0:
+            raise RuntimeError("checks/hashref.c does not compile: " + r.stderr[:500])
+        os.rename(out + ".tmp%d" % os.getpid(), out)
+    for n, seed in [(0, 1), (1, 2), (3, 3), (15, 4), (16, 5), (17, 6), (250, 7), (251, 8), (252, 9), (1000, 10), (4099, 11)]:
+        blk = pattern_block(seed)
+        x = blk * (n // 251) + blk[:n % 251]
+        got = ref_values(out, n, seed, ["fnv32", "fnv64", "m32", "m128"])
+        want = {k: expect(k, x) for k in ("fnv32", "fnv64", "m32", "m128")}
+        if got != want:
+            raise RuntimeError("checks/hashref.c disagrees with the Python references at n=%d: %r vs %r" % (n, got, want))
+    _REF["bin"] = out
+    return out
+
+
+def ref_values(binary, n, seed, kinds):
+    r = subprocess.run([binary, str(n), str(seed)] + list(kinds), capture_output=True, text=True, timeout=600)
+    if r.returncode != 0:
+        raise RuntimeError("hashref failed (rc=%d)" % r.returncode)
+    return dict(l.split("=", 1) for l in r.stdout.split())
+
+
 def unhex(w):
     return b"" if w == "-" else bytes.fromhex(w)
 
@@ -161,12 +214,20 @@ class TheCheck(Check):
     exhaustive_note = "every length 1..600 x alignment offset 0..7 x 5 content classes (fresh content per op), all five functions"
     assumptions = ["hand model of the loops of qhash.c / md5c.c validated on the explored inputs only",
                    "constants, MD5 step table, shift lists regenerated from the source (translator/md5steps.py: gcc -E + regex) and trusted as a translator",
-                   "little-endian x86-64; nbytes < 2^31 (int nblocks, unsigned int inputLen); regular file that does not change during qhashmd5_file, read() returns >= 1 byte before EOF"]
+                   "huge inputs (2^29 .. 2^32-64 bytes) are checked implementation-vs-oracle only (hashlib.md5; checks/hashref.c for murmur/FNV, itself cross-checked against the Python references each run); the model's bit-count bookkeeping is compared at those lengths without data (md5len)",
+                   "little-endian x86-64; murmur: nbytes < 2^31 (int block arithmetic); MD5: nbytes + 64 <= 2^32 (unsigned int inputLen); regular file that does not change during qhashmd5_file, read() returns >= 1 byte before EOF"]
 
     def regenerate(self):
         from translator import md5steps
         out = os.path.join(vlib.LEAN, "QlibcModel/Generated/HashConsts.lean")
-        text = md5steps.render(md5steps.extract(vlib.REPO))
+        self.translator_error = None
+        try:
+            text = md5steps.render(md5steps.extract(vlib.REPO))
+        except SystemExit as e:
+            # the generated file keeps its last content (the model of the last translatable
+            # source); the failure is a broken obligation of this run, see extra()
+            self.translator_error = str(e)
+            raise
         if not os.path.exists(out) or open(out).read() != text:
             open(out, "w").write(text)
         return [out]
@@ -254,6 +315,32 @@ class TheCheck(Check):
             c1 = rng.choice([0, 1, rng.getrandbits(32), M32, M32])
             ops.append("md5cnt %d %d %s" % (c0, c1, " ".join(hexs(c) for c in chunks)))
         sts.append(Stream("md5-bit-count-carry", ops))
+        # 3c. huge inputs (implementation vs oracle only: no Lean model line).  A single MD5Update of
+        #     >= 2^29 bytes is where `count[1] += inputLen >> 29` is non-zero; the murmur functions use
+        #     `int` block arithmetic (specified below 2^31 bytes).  Buffers are exactly sized, pattern
+        #     = 251-byte seeded block repeated.
+        P29, P30, P31 = 1 << 29, 1 << 30, 1 << 31
+        sd = lambda: rng.randrange(1, 1 << 31)
+        ops = ["big %d %d md5" % (P29 - 1, sd()), "big %d %d md5 m32 m128" % (P29, sd()),
+               "big %d %d md5" % (P29 + 12345, sd())]
+        if not quick:
+            ops += ["big %d %d fnv32 fnv64" % (P29, sd()),
+                    "big %d %d md5 m32 m128" % (P30 + 7, sd()),
+                    "big %d %d md5 fnv32 fnv64 m32 m128" % (P31 - 1, sd()),
+                    "big %d %d md5" % (P31 + 5, sd()), "big %d %d md5" % (3 * P30, sd()),
+                    "big %d %d md5" % ((1 << 32) - 64, sd())]
+        sts.append(Stream("huge-inputs", ops, nomodel=True, note="impl vs oracle only; exactly sized buffers"))
+        # 3d. the length bookkeeping of ONE MD5Update call (model: countUpdate/bufIndex without data):
+        #     many cheap lengths from preset counts, and lengths >= 2^29 (the `>> 29` term)
+        ops = []
+        for _ in range(150 if quick else 1500):
+            ln = rng.choice([0, 1, rng.randrange(0, 64), rng.randrange(0, 5000), rng.randrange(0, 1 << 16)])
+            c0 = rng.choice([0, rng.getrandbits(32), ((1 << 32) - 8 * rng.randrange(0, ln + 3)) & M32])
+            ops.append("md5len %d %d %d" % (c0, rng.choice([0, rng.getrandbits(32), M32]), ln))
+        big_lens = [P29] if quick else [P29 - 1, P29, P29 + 64, P30 + 9, P31, 3 * P30 + 11, (1 << 32) - 64]
+        for ln in big_lens:
+            ops.append("md5len %d %d %d" % (((1 << 32) - 8 * rng.randrange(1, 64)) & M32, rng.choice([5, M32]), ln))
+        sts.append(Stream("md5-length-bookkeeping", ops))
         # 4. file ranges with short reads
         ops = []
         for fi in range(2 if quick else 6):
@@ -335,6 +422,31 @@ class TheCheck(Check):
                 want = expect(k, x)
                 if got.get(k) != want:
                     return "%s of %d bytes gives `%s`, the published algorithm gives `%s`" % (k, len(x), got.get(k), want)
+        elif kind == "big":
+            n, seed, kinds = int(w[1]), int(w[2]), w[3:]
+            got = dict(f.split("=", 1) for f in line.split() if "=" in f)
+            key = (n, seed, tuple(kinds))
+            cache = self.__dict__.setdefault("_bigcache", {})
+            if key not in cache:
+                want = {}
+                if "md5" in kinds:
+                    want["md5"] = md5_pattern(n, seed)
+                others = [k for k in kinds if k != "md5"]
+                if others:
+                    want.update(ref_values(ref_binary(), n, seed, others))
+                cache[key] = want
+            for k in kinds:
+                if got.get(k) != cache[key][k]:
+                    return ("%s of %d bytes (one call, exactly sized buffer, pattern seed %d) gives `%s`, the published "
+                            "algorithm gives `%s`" % (k, n, seed, got.get(k), cache[key][k]))
+        elif kind == "md5len":
+            # RFC 1321 3.2 / md5.h: the count is the number of bits modulo 2^64; index = bytes mod 64
+            c0, c1, n = int(w[1]), int(w[2]), int(w[3])
+            cnt = (c0 + (c1 << 32) + 8 * n) & M64
+            want = "cnt %d %d idx %d" % (cnt & M32, cnt >> 32, (cnt >> 3) & 63)
+            if line != want:
+                return ("bit count after one MD5Update of %d bytes from count (%d, %d) is `%s`, expected `%s` "
+                        "(8 * bytes modulo 2^64)" % (n, c0, c1, line, want))
         elif kind == "md5cnt":
             # "number of bits, modulo 2^64 (lsb first)": after every update count = start + 8 * bytes fed
             cnt = int(w[1]) + (int(w[2]) << 32)
@@ -361,6 +473,8 @@ class TheCheck(Check):
                 return "trivial"
             cls = "zero" if not any(x) else "ff" if all(c == 255 for c in x) else "nul" if 0 in x else "other"
             return (w[0], len(x), w[1], cls)
+        if w[0] in ("big", "md5len"):
+            return op
         return op[:80]
 
     def classify(self, op, detail):
@@ -371,12 +485,21 @@ class TheCheck(Check):
                 if detail.startswith(k):
                     return "qhash:" + name
             return "qhash:all"
+        if kind == "big":
+            for k, name in (("md5 ", "md5"), ("fnv32 ", "fnv32"), ("fnv64 ", "fnv64"), ("m32 ", "murmur32"), ("m128 ", "murmur128")):
+                if detail.startswith(k):
+                    return "qhash:" + name + ":huge"
+            return "qhash:huge"
         return "qhash:" + kind
 
     # ------------------------------------------------------------ spec validation
     def extra(self, impl_dir):
         """differential run of the Lean *specifications* (driver module `hashspec`) against this
         file's Python references: validates Hash/Spec.lean beyond its #guard vectors"""
+        if getattr(self, "translator_error", None):
+            self.violation("corr", "translator", "K-gen: the current source no longer has the shape the model "
+                           "transcribes (%s); Generated/HashConsts.lean is stale" % self.translator_error,
+                           {"stream": "translator/md5steps.py"})
         if not os.path.exists(vlib.driver_path()):
             return
         rng = self.rng
